@@ -1,6 +1,6 @@
 (* Executable entry points for the C02 correspondence (aliased fill of polygons inside the clip). *)
 From Coq Require Import ZArith Bool List.
-From TS Require Model.CurveEdge.
+From TS Require Model.CurveEdge Model.CurveFill.
 From TS Require Import Base.F32 Model.Rect Model.PathBuilder Model.Conic Model.RunC14 Model.IntRect Model.Edge Model.Walk.
 Import ListNotations.
 Local Open Scope Z_scope.
@@ -21,7 +21,9 @@ Definition conservative_round (r : rect) : option irect :=
 Definition enc_spans (l : list span) : list Z := flat_map (fun s => [s_x s; s_y s; s_w s]) l.
 
 (* args: evenodd w h <builder ops>  ->  spans of scan::path::fill_path on a w x h clip.
-   -9: outside this model (curves, path not contained in the clip); -8: path does not build *)
+   -9: outside this model (path not contained in the clip: the float edge clipper); -8: path does not build.
+   Quadratic and cubic segments go through Model/CurveFill.v (chopping at the y extrema in binary32, curve edges as
+   the lists of their lines) *)
 Definition run_fill_spans (l : list Z) : list Z :=
   match l with
   | eo :: w :: h :: ops =>
@@ -34,7 +36,7 @@ Definition run_fill_spans (l : list Z) : list Z :=
               let contained := (0 <=? ix ir) && (0 <=? iy ir) && (ir_right ir <=? w) && (ir_bottom ir <=? h) in
               if negb contained then [-9]
               else
-                match build_edges p 0 with
+                match CurveFill.build_edges_curves p 0 with
                 | None => [-1]
                 | Some None => []
                 | Some (Some es) =>
